@@ -126,6 +126,8 @@ def check_class_lookup(fx, rep, rule):
     for impl, recv in (("mapper", A.MAPPER), ("cache", A.CACHE)):
         rt = A.one(rep, rule, impl + "::remap_throwable", A.method(fx, recv, "remap_throwable"))
         rcl = A.method(fx, recv, "remap_class")
+        if rt and len(rcl) != 1:
+            A.one(rep, rule, impl + "::remap_class", rcl)
         if not rt or len(rcl) != 1:
             continue
         sy, res = ev(fx, rep, rule, "%s/remap_throwable/%s" % (rule, impl), rt, opaque=(rcl[0],))
